@@ -1141,7 +1141,19 @@ pub fn tight_strategy() -> BoxedStrategy<PacketSpec> {
             ],
             1..4,
         ),
-        prop_oneof![2 => Just(None), 3 => bytes(4..25).prop_map(Some)],
+        prop_oneof![
+            2 => Just(None),
+            3 => bytes(4..25).prop_map(Some),
+            // a trailer that reads like one more extension field (type, length = its own size or near it)
+            2 => (prop::sample::select(vec![0x0104u16, 0x0204, 0x0304, 0x0404, 0xF5FF, 0x4000]), 1usize..=6, -1i32..=1, any::<u8>())
+                .prop_map(|(ty, words, d, fill)| {
+                    let n = words * 4;
+                    let mut v = vec![fill; n];
+                    v[..2].copy_from_slice(&ty.to_be_bytes());
+                    v[2..4].copy_from_slice(&(((n as i32) + 4 * d).max(0) as u16).to_be_bytes());
+                    Some(v)
+                }),
+        ],
     )
         .prop_map(|(mut p, vn, pre, mac)| {
             p.vn = vn;
@@ -1202,11 +1214,76 @@ pub fn tight_nts_strategy() -> BoxedStrategy<PacketSpec> {
         .boxed()
 }
 
+/// raw extension-field chains with adversarial length fields behind a well-formed header: known v4/v5 field
+/// types, declared lengths equal to / slightly off / unrelated to the bytes present (also not multiples of
+/// four), authenticator fields with small nonce and ciphertext length fields, optional tail of 0..28 bytes
+pub fn ef_soup() -> BoxedStrategy<Vec<u8>> {
+    let types: Vec<u16> = vec![
+        0x0104, 0x0204, 0x0304, 0x0404, 0xF5FF, 0xF501, 0xF502, 0xF503, 0xF504, 0xF505, 0xF506, 0xF507, 0xF508, 0xF509, 0x4000, 0x0000,
+    ];
+    let field = (
+        prop_oneof![6 => prop::sample::select(types), 1 => any::<u16>()],
+        bytes(0..41),
+        prop_oneof![5 => Just(0i32), 3 => -3i32..=3, 1 => -40i32..=40, 1 => Just(i32::MIN), 1 => 0i32..0x10000],
+        (0u16..25, 0u16..41, any::<bool>()),
+        any::<bool>(),
+    )
+        .prop_map(|(ty, mut body, len_mode, (nonce_len, ct_len, as_auth), pad)| {
+            if ty == 0x0404 || as_auth && ty & 0xFF == 0x04 {
+                let mut b = Vec::new();
+                b.extend(nonce_len.to_be_bytes());
+                b.extend(ct_len.to_be_bytes());
+                b.append(&mut body);
+                body = b;
+            }
+            let actual = 4 + body.len() as i32;
+            let declared: u16 = match len_mode {
+                i32::MIN => 0,
+                d if (-40..=40).contains(&d) => (actual + d).clamp(0, 0xFFFF) as u16,
+                v => v as u16,
+            };
+            let mut out = Vec::new();
+            out.extend(ty.to_be_bytes());
+            out.extend(declared.to_be_bytes());
+            out.extend(body);
+            if pad {
+                while out.len() % 4 != 0 {
+                    out.push(0);
+                }
+            }
+            out
+        });
+    (prop::collection::vec(field, 1..5), bytes(0..29))
+        .prop_map(|(fields, tail)| {
+            let mut v: Vec<u8> = fields.into_iter().flatten().collect();
+            v.extend(tail);
+            v
+        })
+        .boxed()
+}
+
+/// a well-formed v4/v5 header (no fields of its own) followed by an `ef_soup`
+pub fn soup_request() -> BoxedStrategy<ReqSpec> {
+    (packet_strategy(), prop_oneof![1 => Just(4u8), 1 => Just(5u8)], any::<bool>(), ef_soup())
+        .prop_map(|(mut base, vn, draft, append)| {
+            base.vn = vn;
+            base.pre.clear();
+            base.post.clear();
+            base.nts = None;
+            base.mac = None;
+            base.draft_ok = draft;
+            base.draft_wrong = false;
+            ReqSpec::Mutated { base, flips: vec![], truncate: None, append }
+        })
+        .boxed()
+}
+
 pub fn req_strategy() -> BoxedStrategy<ReqSpec> {
     prop_oneof![
         6 => conformant_strategy().prop_map(ReqSpec::Built),
         1 => tight_strategy().prop_map(ReqSpec::Built),
         1 => tight_nts_strategy().prop_map(ReqSpec::Built),
+        1 => soup_request(),
         8 => packet_strategy().prop_map(ReqSpec::Built),
         1 => bytes(0..200).prop_map(ReqSpec::Raw),
         1 => bytes(48..1025).prop_map(ReqSpec::Raw),
